@@ -192,7 +192,7 @@ CHECKS = {
     "C06": {
         "level": "exploration",
         "design_ref": "DESIGN.md 3 C06",
-        "technique": "runtime monitor: graph reachability model + unique tokens for exactly-once delivery, actual reply round trips, per-router hop-count/no-echo observer with an independent NPCI decoder",
+        "technique": "runtime monitor: graph reachability model + unique tokens for exactly-once delivery, actual reply round trips, per-router hop-count/no-echo observer with an independent NPCI decoder; injected delay of path-discovery answers on the fault LAN",
         "text": "Random tree internetworks (2..8 networks, multi-port routers, multi-hop, stations that know or do not know "
                 "their network number, router announcements on/off) are assembled from real NetworkServiceAccessPoint/"
                 "NetworkServiceElement instances on virtual LANs.  For every source x destination kind x destination, cold "
@@ -206,7 +206,7 @@ CHECKS = {
     "C13": {
         "level": "exploration",
         "design_ref": "DESIGN.md 3 C13",
-        "technique": "runtime monitor: unique broadcast tokens + Annex-J expectation model over real BIPSimple/BIPBBMD/BIPForeign instances on a virtual IP internetwork; registration intervals reconstructed from the wire with an independent BVLC parser; virtual-time probes across every edge",
+        "technique": "runtime monitor: unique broadcast tokens + Annex-J expectation model over real BIPSimple/BIPBBMD/BIPForeign instances on a virtual IP internetwork; registration intervals reconstructed from the wire with an independent BVLC parser; virtual-time probes across every edge; countdown oracle over successive Read-FDT answers (reported remaining time vs. elapsed virtual time)",
         "text": "Random layouts of 1..5 subnets with BBMDs, ordinary nodes and foreign devices (full and partial tables, "
                 "one-hop and two-hop entries) are assembled from the real B/IP classes; every node broadcasts a unique "
                 "token and the deliveries above each B/IP layer must be at most once per node, never at the "
